@@ -38,7 +38,7 @@ StartsWithDot(c) == Len(c) >= 1 /\ (c[1] = "." \/ (Len(c) >= 2 /\ c[1] = "\\" /\
 
 Children(fs, dir) == {p[Len(p)] : p \in {q \in DOMAIN fs : Len(q) = Len(dir) + 1 /\ SubSeq(q, 1, Len(dir)) = dir}}
 
-IsDir(fs, p) == p = <<>> \/ (p \in DOMAIN fs /\ fs[p] = "dir")
+IsDir(fs, p) == p = <<>> \/ (p \in DOMAIN fs /\ fs[p] \in {"dir", "ldir"})      \* ldir: a symbolic link to a directory
 Exists(fs, p) == p \in DOMAIN fs
 
 (* names of directory dir matched by component c *)
